@@ -21,8 +21,22 @@ def _load_registry():
     return registry
 
 
+SPLIT_AFTER = 10      # paths an item explores before its open subtrees are handed to other workers
+MAX_SHARDS = 12
+
+
 def _worker(task):
-    modname, item_name, repo, timeout_ms, findings_keys, recheck = task
+    modname, item_name, repo, timeout_ms, findings_keys, recheck = task[:6]
+    roots = None
+    split_after = SPLIT_AFTER
+    if len(task) > 6 and task[6] is not None:
+        from pyvc.core import Prefix
+        roots = []
+        for dec, fps in task[6]:
+            pf = Prefix(dec)
+            pf.fps = list(fps)
+            roots.append(pf)
+        split_after = 3 * SPLIT_AFTER     # a shard that turns out to be a big subtree is split again
     t0 = time.time()
     out = {"item": item_name, "module": modname, "obligations": [], "paths": 0, "unsupported": [],
            "side_unknown": [], "solver_time": 0.0, "solver_calls": 0, "covered": [], "error": None,
@@ -45,7 +59,7 @@ def _worker(task):
         if isinstance(item, Lemma):
             out["kind"] = "lemma"
             out["expect_sat"] = item.expect_sat
-            res = explore(prog, item.name, lemma_driver(prog, item), timeout_ms=tmo, recheck=recheck)
+            res = explore(prog, item.name, lemma_driver(prog, item), timeout_ms=tmo, recheck=recheck, roots=roots, split_after=split_after)
             out["target"] = item.pred
         else:
             from pyvc.cdef import Finding
@@ -53,7 +67,7 @@ def _worker(task):
                    for f in findings_keys
                    if f.get("when") and (f.get("obligation", "") == item.name or f.get("obligation", "").startswith(item.name + "."))]
             res = explore(prog, item.name, contract_driver(prog, item, findings=fnd), timeout_ms=tmo,
-                          max_paths=item.max_paths, recheck=recheck)
+                          max_paths=item.max_paths, recheck=recheck, roots=roots, split_after=split_after)
             out["target"] = item.target
             out["replayable"] = getattr(item, "replayable", True)
             out["excluded_findings"] = [f.fid for f in fnd]
@@ -68,11 +82,71 @@ def _worker(task):
         out["solver_calls"] = res.solver_calls
         out["covered"] = sorted(res.covered)
         out["truncated"] = res.truncated
+        out["leftover"] = [(list(p), list(getattr(p, "fps", ()))) for p in res.leftover]
         if res.error:
             out["error"] = res.error
     except Exception:
         out["error"] = traceback.format_exc()
     out["wall"] = time.time() - t0
+    return out
+
+
+def _merge_shard(base, r):
+    """fold the result of a subtree shard into the item's result record"""
+    base["obligations"].extend(r["obligations"])
+    base["paths"] += r["paths"]
+    base["solver_time"] += r["solver_time"]
+    base["solver_calls"] += r["solver_calls"]
+    base["unsupported"] = sorted(set(base["unsupported"]) | set(r["unsupported"]))
+    base["side_unknown"] = sorted(set(base["side_unknown"]) | set(r["side_unknown"]))
+    base["covered"] = sorted(set(base["covered"]) | set(r["covered"]))
+    base["outcomes"] = sorted(set(base.get("outcomes", [])) | set(r.get("outcomes", [])))
+    base["truncated"] = base["truncated"] or r["truncated"]
+    base["error"] = base["error"] or r["error"]
+    base["shards"] = base.get("shards", 1) + 1
+    base["cpu"] = base.get("cpu", base["wall"]) + r["wall"]
+    base["wall_end"] = max(base.get("wall_end", 0.0), r.get("t_end", 0.0))
+
+
+def run_tasks(tasks, jobs):
+    """every item starts as one task; an item whose path tree is still open after SPLIT_AFTER paths
+    hands its unexplored alternatives (disjoint subtrees) back and they are explored by other
+    workers in parallel; results are merged per item"""
+    results = {}
+    pending = []
+    t0 = time.time()
+    with mp.Pool(min(jobs, max(len(tasks), 4))) as pool:
+        for t in tasks:
+            pending.append((t, pool.apply_async(_worker, (t,))))
+        while pending:
+            nxt = []
+            progressed = False
+            for t, ar in pending:
+                if not ar.ready():
+                    nxt.append((t, ar))
+                    continue
+                progressed = True
+                r = ar.get()
+                r["t_end"] = time.time() - t0
+                left = r.pop("leftover", None) or []
+                if len(t) > 6 and t[6] is not None:
+                    _merge_shard(results[r["item"]], r)
+                else:
+                    results[r["item"]] = r
+                if left and not r["error"]:
+                    k = min(MAX_SHARDS, len(left))
+                    chunks = [left[i::k] for i in range(k)]
+                    for ch in chunks:
+                        st = tuple(t[:6]) + (ch,)
+                        nxt.append((st, pool.apply_async(_worker, (st,))))
+            pending = nxt
+            if not progressed:
+                time.sleep(0.05)
+    out = list(results.values())
+    for r in out:
+        if r.get("wall_end"):
+            r["wall"] = max(r["wall"], r["wall_end"])
+    out.sort(key=lambda r: r["item"])
     return out
 
 
@@ -193,11 +267,7 @@ def main(argv=None):
         print("checker fault: zero obligations registered for " + args.prop)
         return 3
 
-    results = []
-    with mp.Pool(min(args.jobs, len(tasks))) as pool:
-        for r in pool.imap_unordered(_worker, tasks):
-            results.append(r)
-    results.sort(key=lambda r: r["item"])
+    results = run_tasks(tasks, args.jobs)
 
     head, dirty = repo_fingerprint(repo)
     replay_dir = os.path.join(VERIF, "replays", args.prop)
